@@ -229,8 +229,8 @@ Proof.
     + destruct (do_actions _ _ _ _) as [c1|] eqn:E1; [|discriminate].
       intros H; inversion H; subst. apply run_hooks_good.
       eapply do_actions_good; [exact E1|]. apply good_set_u, G0.
-    + intros H. eapply advance_good; [exact H|]. apply good_set_u.
-      apply good_new. apply good_set_u, G0.
+    + intros H. unfold start_process in H. eapply advance_good; [exact H|]. apply good_set_u.
+      apply good_new. apply good_set_u. apply good_set_u, G0.
     + intros H; inversion H; subst. apply run_hooks_good. apply good_set_u, G0.
   - destruct (alookup pid (procs u)) as [pr|].
     + intros H. eapply advance_good; [exact H|]. apply good_set_u, G0.
